@@ -198,6 +198,67 @@ fn run_type(t: &str, b: &[u8], sib: bool) -> Option<Dec> {
         "moov" => MoovBox, "ilst" => IlstBox, "meta" => MetaBox, "udta" => UdtaBox, "traf" => TrafBox, "moof" => MoofBox)
 }
 
+/// C04 on a value CONSTRUCTED from the specification's value (not obtained from the decoder):
+/// encode it with the library, decode the bytes with a sibling following, compare with `==`.
+fn built<T>(exp: &Value) -> Value
+where
+    T: crate::build::FromSpec + Debug + PartialEq + Mp4Box,
+    T: for<'a> ReadBox<&'a mut Cursor<Vec<u8>>>,
+    T: for<'a> WriteBox<&'a mut Vec<u8>>,
+{
+    let Some(x) = T::from_spec(exp) else {
+        return json!({"res":"unbuildable","msg":"","enc":[],"ret":0,"box_size":0,"rt_res":"skipped","rt_eq":false,"rt_pos":0});
+    };
+    let mut out = Vec::new();
+    let (res, msg, ret, bs) = match guarded(|| (x.write_box(&mut out), x.box_size())) {
+        Ok((Ok(n), bs)) => ("ok", String::new(), n, bs),
+        Ok((Err(e), bs)) => ("err", e.to_string(), 0, bs),
+        Err(p) => ("panic", p, 0, 0),
+    };
+    let (mut rt_res, mut rt_eq, mut rt_pos) = ("skipped", false, 0u64);
+    if res == "ok" {
+        let mut with_sib = out.clone();
+        with_sib.extend_from_slice(&SIBLING);
+        let mut c = Cursor::new(with_sib);
+        match guarded(|| {
+            let h = BoxHeader::read(&mut c)?;
+            T::read_box(&mut c, h.size)
+        }) {
+            Ok(Ok(y)) => {
+                rt_res = "ok";
+                rt_eq = y == x;
+            }
+            Ok(Err(_)) => rt_res = "err",
+            Err(_) => rt_res = "panic",
+        }
+        rt_pos = c.position();
+    }
+    json!({"res":res,"msg":msg,"enc":bytes_val(&out),"ret":ret.min(0x7fff_ffff),"box_size":bs.min(0x7fff_ffff),"rt_res":rt_res,"rt_eq":rt_eq,"rt_pos":rt_pos})
+}
+
+macro_rules! dispatch_built {
+    ($t:expr, $v:expr, $( $name:literal => $ty:ty ),* ) => {
+        match $t {
+            $( $name => built::<$ty>($v), )*
+            _ => json!({"res":"none","msg":"","enc":[],"ret":0,"box_size":0,"rt_res":"skipped","rt_eq":false,"rt_pos":0}),
+        }
+    };
+}
+
+// every box type whose value can be written down with public fields (dinf keeps its dref private,
+// and minf / mdia / trak / moov contain a dinf)
+fn built_type(t: &str, v: &Value) -> Value {
+    dispatch_built!(t, v,
+        "ftyp" => FtypBox, "mvhd" => MvhdBox, "tkhd" => TkhdBox, "mdhd" => MdhdBox, "hdlr" => HdlrBox, "vmhd" => VmhdBox,
+        "smhd" => SmhdBox, "url " => UrlBox, "dref" => DrefBox, "stts" => SttsBox, "ctts" => CttsBox,
+        "stss" => StssBox, "stsc" => StscBox, "stsz" => StszBox, "stco" => StcoBox, "co64" => Co64Box, "mehd" => MehdBox,
+        "trex" => TrexBox, "mfhd" => MfhdBox, "tfhd" => TfhdBox, "tfdt" => TfdtBox, "trun" => TrunBox, "elst" => ElstBox,
+        "edts" => EdtsBox, "emsg" => EmsgBox, "data" => DataBox, "avcC" => AvcCBox, "avc1" => Avc1Box, "hvcC" => HvcCBox,
+        "hev1" => Hev1Box, "vpcC" => VpccBox, "vp09" => Vp09Box, "esds" => EsdsBox, "mp4a" => Mp4aBox, "tx3g" => Tx3gBox,
+        "stsd" => StsdBox, "stbl" => StblBox, "mvex" => MvexBox,
+        "ilst" => IlstBox, "meta" => MetaBox, "udta" => UdtaBox, "traf" => TrafBox, "moof" => MoofBox)
+}
+
 fn dec_json(d: &Dec, exp: &Value) -> Value {
     json!({"res": d.res, "msg": d.msg, "v": if d.res == "ok" { normalise(&d.dbg, exp) } else { json!("-") }, "pos": d.pos,
         "hdr_type": bytes_val(&d.hdr_type.to_be_bytes())})
@@ -232,5 +293,6 @@ pub fn run_case(case: &Value, idx: u64, out: &mut Out) {
         "self_ok": d0.as_ref().map(|x| x.self_ok).unwrap_or(false),
         "self_pos": d0.as_ref().map(|x| x.self_pos).unwrap_or(0),
         "self_len": d0.as_ref().map(|x| x.reenc.len()).unwrap_or(0),
+        "built": built_type(t, exp),
         "self_reenc": d0.as_ref().map(|x| x.reenc_res).unwrap_or("skipped")}));
 }
